@@ -18,6 +18,7 @@ LEVEL_NOTE = ("Not decided: model equivalence over all operation histories (≤ 
 LEVEL_TEXT += (' (E5.var) VariableMap::add refuses every second definition and set writes mutable bindings only; (C17.read/C17.get) read accessors expose the containers as stored and lookups have the recorded own-map-then-context shape.')
 LEVEL_TEXT += (' (C17.shape) the model types have exactly the recorded fields: added state is outside the invariants.')
 
+LEVEL_TEXT += (' Globals::add: vacant → insert on every path + Ok; occupied → VariableAlreadyDefined.')
 WITNESSES = ["W2"]
 
 
@@ -176,7 +177,7 @@ def run(prog, rep):
         rep.check(ok, "C17.get", "VariableMap::set :: parent only when absent", f.loc(), "the enclosing map is assigned only when the name is absent locally", "VariableMap::set can reach the parent although the name is bound locally (or never reaches it)")
     # panic audit restricted to the two modules
     rep.rule("E1.a", e1_panic.RULES["E1.a"] + " (graph.rs, variables.rs)")
-    sites, per_rule, ctx = e1_panic.run_e1a(prog, rep, fn_filter=lambda f: f.file in ("src/graph.rs", "src/variables.rs"))
+    sites, per_rule, ctx = e1_panic.run_e1a(prog, rep, fn_filter=lambda f: f.file.startswith("src/graph") or f.file.startswith("src/variables"))
     rep.floor("E1.a", len(sites), 12, "panic-capable sites in graph.rs/variables.rs")
     # unforgeable refs: private fields
     rep.rule("E9.W2", "GraphNodeRef's index and GraphNode.outgoing_edges / Graph.graph_nodes are private: references cannot be forged, invariants cannot be bypassed from outside")
